@@ -31,6 +31,7 @@ RULE = (
     "header fields, Parallels DiskDescriptor storages/images/snapshots/TopGUID. Oracle: every exposed attribute equals the value "
     "the builder wrote (attribute-by-attribute). Non-trivial = >= 2 variable-length fields non-empty, or >= 2 snapshots / "
     "extensions / locator entries / extents. Every case runs in two process variants: the ambient locale, and the C locale with UTF-8 mode and locale coercion switched off; standalone VMDK descriptors are parsed from text and opened by path."
+    ' Backing names of exactly the drawn byte length (1023) or ending exactly with the first cluster; a third process variant runs with debug logging switched on.'
 )
 ASSUMPTIONS = [
     "QCOW2 backing_format is compared case-insensitively (the reader normalises its case)",
